@@ -331,9 +331,9 @@ def run_one(seed, preset=None, tier="quick", want_case=False):
                        "fragment R on __Type { ...L ofType { ...L ofType { ...L ofType { ...L ofType { ...L ofType { ...L } } } } } } "
                        "fragment L on __Type { kind name enumValues(includeDeprecated: true) { name } inputFields { name } }")
         queries = [("arg_types", ARG_TYPES_Q), ("meta_typenames", META_Q), ("schema_all", schema_query(True)), ("schema_nodep", schema_query(False)),
-                   ("types_all", type_query(type_names, True)), ("types_nodep", type_query(type_names, False)),
-                   # `includeDeprecated: null`: only `true` adds the deprecated members
-                   ("schema_nulldep", schema_query(None)), ("types_nulldep", type_query(type_names, None))]
+                   ("types_all", type_query(type_names, True)), ("types_nodep", type_query(type_names, False))]
+        # (`includeDeprecated: null` is not asserted: the specification is silent and the upstream functional tests pin
+        # "null includes the deprecated members" - see DESIGN.md 11.3 item 22)
 
         async def build(mode, name):
             for d in schema.directives:
@@ -458,8 +458,7 @@ def run_one(seed, preset=None, tier="quick", want_case=False):
                         viol.append(V("hidden_schema_introspected", "[%s] schema marked @nonIntrospectable answered %s: %r" % (
                             mode, label, repr(resp)[:300])))
                 continue
-            for incl, slabel, tlabel in ((True, "schema_all", "types_all"), (False, "schema_nodep", "types_nodep"),
-                                         (False, "schema_nulldep", "types_nulldep")):
+            for incl, slabel, tlabel in ((True, "schema_all", "types_all"), (False, "schema_nodep", "types_nodep")):
                 resp = results[(mode, slabel)]
                 if resp.get("errors") or not resp.get("data"):
                     viol.append(V("introspection_failed", "[%s] %s: %r" % (mode, slabel, repr(resp.get("errors"))[:400])))
